@@ -26,14 +26,18 @@ from .h18_members import (FIXED_TENSOR_ITEMS, FLOAT_ITEMS, OTHER_ITEMS, SEQ_ITEM
                           edit_value, eq, snap)
 
 LEVEL = "exploration"
-RULE = ("two case families. 'pipe': a harness sequence dataset (fixed shapes), a mode of 1..4 distinct items (tensors "
+RULE = ("three case families. 'pipe': a harness sequence dataset (fixed shapes), a mode of 1..4 distinct items (tensors "
         "of several ranks/dtypes, 0-dim tensor, int, str, index, ctx.<key>), return_ctx, B in 1..8 sample indices "
         "(random order, optional repeats), a member order of length 1..4 over {before, after, none (collates itself), "
         "none-raw (per-sample member that returns the samples uncollated)} (all 156 driven orders are enumerated first, "
         "then sampled: 2/3 served orders none-raw* (before+ | after before* | none), 1/3 any), builder in {direct KDSingleCollator "
         "call, KDSingleCollatorWrapper, KDComposeCollator}, per member an item it edits. 'pad': variable-length "
         "fields with a length profile (all-equal, all-zero, one-zero, random, increasing, one-long), trailing dims, "
-        "B in 1..8, samples with/without ctx, collator return_ctx, same three builders. distinct by full spec; "
+        "B in 1..8, samples with/without ctx, collator return_ctx, same three builders. 'shared': ONE member instance "
+        "behind 2..4 entry points with different dataset_mode / return_ctx (two KDSingleCollatorWrappers, the member "
+        "configured for direct use and additionally wrapped, the member inside two KDComposeCollators, mixes), built in a "
+        "random order and called 3..9 times in interleaved order, every call judged by the pipe oracle under the "
+        "configuration of the entry point it went to. distinct by full spec; "
         "non-trivial = B >= 2 or a mode of >= 2 items")
 ASSUMPTIONS = [
     "ModeWrapper.return_ctx equals the collator's return_ctx (the pipeline's own assertion message demands it); the only "
@@ -56,9 +60,12 @@ ASSUMPTIONS = [
     "(what default collation can batch); ctx values of ragged shape are not driven",
     "items are tensors, ints, strings; items that are themselves tuples/dicts are not driven for the padding collator",
     "KDSingleCollatorWrapper is held to the same contract as KDComposeCollator with one member",
+    "one member instance may sit behind several entry points (wrappers, composes, its own direct configuration); every "
+    "entry point is held to its own dataset_mode / return_ctx whatever was built or called before (the member's only "
+    "state in the harness is its log; stateful members are not driven)",
 ]
 MONITORS = ["pipeline_outputs_checked", "member_inputs_checked", "ctx_merges_checked", "order_refusals_checked",
-            "pad_fields_checked", "pad_other_fields_checked", "pad_ctx_checked"]
+            "pad_fields_checked", "pad_other_fields_checked", "pad_ctx_checked", "shared_entry_calls_checked"]
 
 REFUSAL = "raw-member-after-collation"
 K_WRAPPER = "wrapper:bypasses-pipeline"
@@ -183,10 +190,49 @@ def _gen_pad(rng, i):
             "lb": _lens(rng, rng.choice(PROFILES), nd), "trail": rng.choice([[], [], [1], [3], [2, 2]])}
 
 
+def _gen_shared(rng, i):
+    """ONE member instance reachable through several entry points with different configurations"""
+    cm = ["before", "after", None][i % 3]
+    member = {"cmode": cm, "raw": False, "op": rng.choice(list(FLOAT_ITEMS) + [None])}
+    shape = i % 4  # 0: two wrappers, 1: self-configured member + wrapper(s), 2: two composes (+ wrapper), 3: random mix
+    kinds = [["wrapper", "wrapper"], ["single", "wrapper"], ["compose", "compose"], []][shape]
+    if shape == 3 or rng.random() < 0.4:
+        kinds = kinds + [rng.choice(["wrapper", "compose", "single"]) for _ in range(rng.randint(1, 2))]
+    while kinds.count("single") > 1:
+        kinds.remove("single")
+    if len(kinds) < 2:
+        kinds.append("wrapper")
+    if rng.random() < 0.5:
+        rng.shuffle(kinds)
+    entries = []
+    for j, kind in enumerate(kinds):
+        mode = _pick_mode(rng, PIPE_ITEMS, rng.choice([1, 2, 2, 3]))
+        ctx = rng.random() < 0.5
+        if j == 1 and rng.random() < 0.8:
+            ctx = not entries[0]["ctx"]
+        e = {"kind": kind, "mode": " ".join(mode), "ctx": ctx}
+        if kind == "compose" and cm is not None and rng.random() < 0.4:
+            e["extra"] = {"cmode": "before", "raw": False, "op": rng.choice(list(FLOAT_ITEMS) + [None])}
+        entries.append(e)
+    nd = rng.randint(8, 10)
+    order = list(range(len(entries))) + [rng.randrange(len(entries)) for _ in range(rng.randint(1, len(entries) + 1))]
+    if rng.random() < 0.3:
+        order.reverse()
+    calls = []
+    for e in order:
+        B = _B(rng)
+        calls.append({"e": e, "idxs": _idxs(rng, nd, B)})
+    return {"fam": "shared", "member": member, "entries": entries, "calls": calls, "nd": nd,
+            "la": rng.choice([0, 1, 2, 3, 3]), "lb": rng.choice([0, 1, 2]), "trail": rng.choice([[], [], [1], [3], [2, 2]])}
+
+
 def gen_cases(run):
     total = run.n(12000, 400000)
     rng = run.rng
     for i in range(total):
+        if i % 8 == 7:
+            yield _gen_shared(rng, i // 8)
+            continue
         spec = _gen_pipe(rng, i // 2) if i % 2 == 0 else _gen_pad(rng, i // 2)
         if spec["B"] < 2 and len(spec["mode"].split(" ")) < 2:
             spec["_trivial"] = True
@@ -290,49 +336,34 @@ def _pipe_desc(spec):
     return (f"{spec['builder']}[{ms}] mode={spec['mode']!r} return_ctx={spec['ctx']} B={spec['B']} idxs={spec['idxs']}")
 
 
-def _run_pipe(run, spec):
-    mode, has_ctx, builder = spec["mode"], spec["ctx"], spec["builder"]
+def _judge(run, desc, coll, members, mspecs, mode, has_ctx, builder, batch, kover=None):
+    """one call `coll(batch)` against the reference; `members` are the RecMember objects of the pipeline in order
+    (their logs are reset here), `mspecs` their specs. -> True iff nothing was reported"""
     mode_items = mode.split(" ")
     n = len(mode_items)
-    desc = _pipe_desc(spec)
-    run.cover("pipe", builder, spec["order"], has_ctx, min(n, 2))
-    run.cover("pipe-B", spec["B"], min(n, 3), has_ctx)
-    batch = _build_batch(run, spec, has_ctx)
-    if batch is None:
-        return
+    for m in members:
+        m.log.clear(), m.flags.clear(), m.errors.clear()
     raw, ctxs = _split(batch, has_ctx)
     given = snap(batch)
-    model = _model(spec["members"], mode_items, raw)
+    model = _model(mspecs, mode_items, raw)
     trig = model["trigger"][0] if model["trigger"] else "none"
     K_STATE = f"pipeline:collation-by-{trig}-member-not-remembered"
 
     def key(default):
+        if kover is not None:
+            return kover
         return K_WRAPPER if builder == "wrapper" else default
-
-    members = [RecMember(k, m["cmode"], m["op"], keep_raw=bool(m.get("raw")), **({"dataset_mode": mode, "return_ctx": has_ctx} if builder == "single" else {}))
-               for k, m in enumerate(spec["members"])]
-
-    def construct():
-        if builder == "single":
-            return members[0]
-        if builder == "wrapper":
-            return KDSingleCollatorWrapper(members[0], dataset_mode=mode, return_ctx=has_ctx)
-        return KDComposeCollator(members, dataset_mode=mode, return_ctx=has_ctx)
-
-    st, coll = _guarded(run, construct, None, key("pipeline:constructor"), f"constructing {desc}")
-    if st != "ok":
-        return
 
     expect_refusal = model["refuse_at"] is not None
 
     def crash_key(e, kind):
-        if builder == "wrapper":
-            return K_WRAPPER
+        if kover is not None or builder == "wrapper":
+            return key(None)
         # members never raise (RecMember guards its own body), so the failure is the pipeline's. If it happens behind
         # the reference's collation point, the pipeline mishandled already collated data (second default collation,
         # second ctx split): one mechanism, whatever exception it surfaces as.
         logged = sum(1 for m in members if m.log)
-        ms = spec["members"]
+        ms = mspecs
         if (has_ctx and 0 < logged < len(ms) and ms[logged]["cmode"] == "before"
                 and all(m["cmode"] is None and m.get("raw") for m in ms[:logged])):
             # only reachable with KDV_C18_CTX_AFTER_RAW=1 (see ASSUMPTIONS)
@@ -347,16 +378,16 @@ def _run_pipe(run, spec):
         if not (len(m.log) == 1 and k < len(model["inputs"]) and eq(m.log[0]["input"], model["inputs"][k][1])):
             continue
         for f in m.flags[:1]:
-            run.violation(K_SETITEM, f"{desc}: member {m.k} used ModeWrapper.set_item(mode={f['mode']!r}, item={f['item']!r}) on "
+            run.violation(key(K_SETITEM), f"{desc}: member {m.k} used ModeWrapper.set_item(mode={f['mode']!r}, item={f['item']!r}) on "
                                      f"{f['container']} and got {f['returned']} (container layout not kept; shared with C10/C01)")
     if st == "refused":
         run.count("order_refusals_checked")
-        return
+        return True
     if st == "failed":
         return
     if expect_refusal:
         j = model["refuse_at"]
-        run.violation(key(K_STATE), f"{desc}: member {j} ({spec['members'][j]['cmode']}) needs raw samples but sits behind the collation "
+        run.violation(key(K_STATE), f"{desc}: member {j} ({mspecs[j]['cmode']}) needs raw samples but sits behind the collation "
                                     f"point (member {model['trigger'][1]}, {trig}); the pipeline neither refused nor delivered raw samples: "
                                     f"member {j} was handed {describe(members[j].log[0]['input']) if members[j].log else 'nothing'}, result {describe(res)}")
         return
@@ -373,8 +404,8 @@ def _run_pipe(run, spec):
         if not eq(rec["input"], want):
             bad = True
             twice = _try_collate(want) if stage == "collated" else None
-            if builder == "wrapper":
-                kk = K_WRAPPER
+            if kover is not None or builder == "wrapper":
+                kk = key(None)
                 why = "was handed the collator's unprocessed input" if eq(rec["input"], given) else "was handed something else"
             elif twice is not None and eq(rec["input"], twice):
                 kk, why = K_STATE, "was handed data that went through default collation twice"
@@ -386,7 +417,7 @@ def _run_pipe(run, spec):
                 kk, why = "pipeline:ctx-not-split", "was handed (items, ctx) pairs instead of the item parts"
             else:
                 kk, why = "pipeline:member-input", "was handed unexpected data"
-            run.violation(kk, f"{desc}: member {k} ({spec['members'][k]['cmode']}) {why}: got {describe(rec['input'])}, expected {stage} {describe(want)}")
+            run.violation(kk, f"{desc}: member {k} ({mspecs[k]['cmode']}) {why}: got {describe(rec['input'])}, expected {stage} {describe(want)}")
             break
         run.count("member_inputs_checked")
         if rec["mode_arg"] != mode:
@@ -417,8 +448,8 @@ def _run_pipe(run, spec):
     run.count("pipeline_outputs_checked")
     if not eq(out, want):
         twice = _try_collate(want)
-        if builder == "wrapper":
-            kk, why = K_WRAPPER, "batch differs from the reference"
+        if kover is not None or builder == "wrapper":
+            kk, why = key(None), "batch differs from the reference"
         elif twice is not None and eq(out, twice):
             kk, why = K_STATE, "batch went through default collation twice (stacked layout)"
         elif (not has_ctx) and isinstance(out, (tuple, list)) and len(out) == 2 and eq(out[0], want):
@@ -447,6 +478,37 @@ def _run_pipe(run, spec):
             run.violation(key("pipeline:ctx-values"), f"{desc}: ctx[{kx!r}] = {describe(octx[kx])}, expected {describe(want_ctx[kx])} (per-sample values in sample order)")
             return
     run.sample({"case": desc, "result": describe(res)[:300]}, cap=3)
+    return True
+
+
+
+
+def _run_pipe(run, spec):
+    mode, has_ctx, builder = spec["mode"], spec["ctx"], spec["builder"]
+    mode_items = mode.split(" ")
+    n = len(mode_items)
+    desc = _pipe_desc(spec)
+    run.cover("pipe", builder, spec["order"], has_ctx, min(n, 2))
+    run.cover("pipe-B", spec["B"], min(n, 3), has_ctx)
+    batch = _build_batch(run, spec, has_ctx)
+    if batch is None:
+        return
+    mspecs = spec["members"]
+    members = [RecMember(k, m["cmode"], m["op"], keep_raw=bool(m.get("raw")), **({"dataset_mode": mode, "return_ctx": has_ctx} if builder == "single" else {}))
+               for k, m in enumerate(mspecs)]
+
+    def construct():
+        if builder == "single":
+            return members[0]
+        if builder == "wrapper":
+            return KDSingleCollatorWrapper(members[0], dataset_mode=mode, return_ctx=has_ctx)
+        return KDComposeCollator(members, dataset_mode=mode, return_ctx=has_ctx)
+
+    st, coll = _guarded(run, construct, None, (K_WRAPPER if builder == "wrapper" else "pipeline:constructor"), f"constructing {desc}")
+    if st != "ok":
+        return
+
+    _judge(run, desc, coll, members, mspecs, mode, has_ctx, builder, batch)
 
 
 # ------------------------------------------------------------------------------------------------ pad family
@@ -545,8 +607,87 @@ def _run_pad(run, spec):
     run.sample({"case": desc, "result": describe(res)[:300]}, cap=6)
 
 
+# ------------------------------------------------------------------------------------------------ shared-member family
+K_SHARED = "shared-member:entry-point-config-not-its-own"
+
+
+_probes = []
+
+
+def _probe(run):
+    """a scratch Run that only collects what `_judge` reports (recycled: constructing a Run re-reads known_findings.json)"""
+    from collections import Counter
+    p = _probes.pop() if _probes else core.Run(run.pid, run.tier, run.seed, run.level)
+    p.known, p.counters, p.refusals, p.violations, p.known_hits, p.samples = {}, Counter(), Counter(), [], Counter(), []
+    p._cur_spec = run._cur_spec
+    return p
+
+
+def _run_shared(run, spec):
+    """several entry points over one member instance, called in interleaved order: each must behave by ITS OWN
+    dataset_mode / return_ctx (the same oracle as the pipe family, per call)"""
+    ms = spec["member"]
+    own = next((e for e in spec["entries"] if e["kind"] == "single"), None)
+    shared = RecMember(0, ms["cmode"], ms["op"], **({"dataset_mode": own["mode"], "return_ctx": own["ctx"]} if own else {}))
+    run.cover("shared", tuple(sorted(e["kind"] for e in spec["entries"])), ms["cmode"], own is not None)
+    built = []
+    for j, e in enumerate(spec["entries"]):
+        members, mspecs = [shared], [ms]
+        if e.get("extra"):
+            members.append(RecMember(1, e["extra"]["cmode"], e["extra"]["op"]))
+            mspecs.append(e["extra"])
+
+        def construct(e=e, members=members):
+            if e["kind"] == "single":
+                return shared
+            if e["kind"] == "wrapper":
+                return KDSingleCollatorWrapper(shared, dataset_mode=e["mode"], return_ctx=e["ctx"])
+            return KDComposeCollator(list(members), dataset_mode=e["mode"], return_ctx=e["ctx"])
+
+        st, coll = _guarded(run, construct, None, K_SHARED, f"constructing entry point {j} {e}")
+        if st != "ok":
+            return
+        built.append((coll, members, mspecs))
+    layout = ", ".join(f"#{j}:{e['kind']}(mode={e['mode']!r}, return_ctx={e['ctx']})" for j, e in enumerate(spec["entries"]))
+    for c, call in enumerate(spec["calls"]):
+        e = spec["entries"][call["e"]]
+        coll, members, mspecs = built[call["e"]]
+        bspec = dict(spec, mode=e["mode"], idxs=call["idxs"])
+        batch = _build_batch(run, bspec, e["ctx"])
+        if batch is None:
+            return
+        desc = (f"one {ms['cmode']} member (edits {ms['op']}) behind entry points [{layout}], built in that order; call {c} of "
+                f"{[x['e'] for x in spec['calls']]} goes to #{call['e']} with idxs={call['idxs']}")
+        probe = _probe(run)
+        _judge(probe, desc, coll, members, mspecs, e["mode"], e["ctx"], e["kind"], batch, kover=K_SHARED)
+        if not probe.violations:
+            run.counters.update(probe.counters)
+            run.refusals.update(probe.refusals)
+            run.count("shared_entry_calls_checked")
+            _probes.append(probe)
+            continue
+        # differential classification: the same entry point alone, around a fresh member. Fails there too -> an ordinary
+        # pipeline defect (its own key); only fails here -> the entry point did not behave by its own configuration
+        iso = _probe(run)
+        fresh = [RecMember(k, m["cmode"], m["op"], **({"dataset_mode": e["mode"], "return_ctx": e["ctx"]} if e["kind"] == "single" else {}))
+                 for k, m in enumerate(mspecs)]
+        try:
+            icoll = (fresh[0] if e["kind"] == "single" else
+                     KDSingleCollatorWrapper(fresh[0], dataset_mode=e["mode"], return_ctx=e["ctx"]) if e["kind"] == "wrapper" else
+                     KDComposeCollator(fresh, dataset_mode=e["mode"], return_ctx=e["ctx"]))
+            _judge(iso, desc + " [same entry point alone]", icoll, fresh, mspecs, e["mode"], e["ctx"], e["kind"],
+                   _build_batch(iso, bspec, e["ctx"]))
+        except Exception:  # noqa: BLE001
+            pass
+        for v in (iso.violations or probe.violations)[:1]:
+            run.violation(v["key"], v["what"])
+        return
+
+
 def run_case(run, spec):
     if spec["fam"] == "pipe":
         _run_pipe(run, spec)
+    elif spec["fam"] == "shared":
+        _run_shared(run, spec)
     else:
         _run_pad(run, spec)
